@@ -746,8 +746,14 @@ def list_ok(u, n):
     return all(a > b for a, b in zip(u, u[1:])) and all(0 <= x < n for x in u)
 
 
+def model_config():
+    with open(os.path.join(yvlib.COQ, "gen", "manifest.json")) as fh:
+        return json.load(fh).get("c06", {})
+
+
 def trace_groups(steps, fs):
     """event groups for ScopeRun.up_replay; returns (groups, info)"""
+    unwind_closes = bool(model_config().get("unwind_closes_upvalues"))
     CLOSURE, CLOSEUP, RETURN, POPEXC, JUMPFIN = [opnum(x) for x in ("Closure", "CloseUpvalue", "Return", "PopExcHandler", "JumpFinally")]
     groups = []
     info = {"captures": 0, "closes": 0, "returns": 0, "unwinds": 0, "unwind_over_open": None, "undecodable": 0,
@@ -761,9 +767,11 @@ def trace_groups(steps, fs):
         key = (s["fiber"], tuple(s["u"]))
         if last is not None and last[0] != s["fiber"]:
             info["switches"] += 1
+        checked = False
         if pending or key != last:
             groups.append([1, s["fiber"], s["len"]] + s["u"])
             pending = False
+            checked = True
         last = key
         op = s["op"]
         ev = []
@@ -788,13 +796,19 @@ def trace_groups(steps, fs):
         if nxt is not None and nxt["fiber"] == s["fiber"] and nxt["nh"] == s["nh"] - 1 and op != POPEXC:
             # unwind_stack (or JumpFinally): stack.truncate(handler.init_stack_size)
             info["unwinds"] += 1
-            if any(x >= s["hsize"] for x in s["u"]):
-                info["unwind_over_open"] = (i, s["u"], s["hsize"])
-                groups.append([1, s["fiber"], s["len"]] + s["u"])
+            if op == JUMPFIN:
+                info["jump_finally"] = info.get("jump_finally", 0) + 1
+            if unwind_closes and op != JUMPFIN:
+                ev.append([4, s["hsize"]])       # close_upvalues(init_stack_size); truncate
+            elif any(x >= s["hsize"] for x in s["u"]):
+                info["unwind_over_open"] = (i, s["u"], s["hsize"], "JumpFinally" if op == JUMPFIN else "unwind_stack")
+                if not checked:
+                    groups.append([1, s["fiber"], s["len"]] + s["u"])
                 break
-            ev.append([5, s["hsize"]])
+            else:
+                ev.append([5, s["hsize"]])
         if ev:
-            if groups[-1][0] != 1:
+            if not checked:
                 groups.append([1, s["fiber"], s["len"]] + s["u"])
             groups += ev
             pending = True
@@ -857,14 +871,15 @@ def known_class_of(c, p):
 
 def evaluate(ctx, progs, tag, trace_n=0, want_code=True):
     """runs programs (ASTs) on the model (Coq) and on the implementation; fills ctx; returns per-program dicts"""
-    binary = ctx.harness("debug")
+    binary = ctx.harness("debug")       # traces: debug assertions on
+    fast = ctx.harness("release")       # bulk runs
     ws = [wire(p) for p in progs]
     terms = []
     for w in ws:
         terms.append("sl_render %s" % w)
         terms.append("sl_classify %s" % w)
         terms.append("sl_compile %s" % w)
-    vals = yvlib.coq_eval(["YV:ScopeRun"], terms, shard_size=90, tag="C06" + tag)
+    vals = yvlib.coq_eval(["YV:ScopeRun"], terms, shard_size=max(12, (len(terms) + 15) // 16), tag="C06" + tag)
     res = []
     for i, p in enumerate(progs):
         src, cl, code = vals[3 * i], vals[3 * i + 1], vals[3 * i + 2]
@@ -876,8 +891,8 @@ def evaluate(ctx, progs, tag, trace_n=0, want_code=True):
         d.update(src=src, code=code, prog=p)
         res.append(d)
     live = [d for d in res if d is not None]
-    recs = yvlib.run_harness(binary, ["run - " + hx(d["src"]) for d in live], case_timeout_ms=10000)
-    crecs = yvlib.run_harness(binary, ["compile " + hx(d["src"]) for d in live], case_timeout_ms=10000) if want_code else [None] * len(live)
+    recs = yvlib.run_harness(fast, ["run - " + hx(d["src"]) for d in live], case_timeout_ms=10000)
+    crecs = yvlib.run_harness(fast, ["compile " + hx(d["src"]) for d in live], case_timeout_ms=10000) if want_code else [None] * len(live)
     for d, r, c in zip(live, recs, crecs):
         d["impl"] = impl_outcome(r)
         if c is not None:
@@ -899,8 +914,8 @@ def evaluate(ctx, progs, tag, trace_n=0, want_code=True):
             d["trace_info"], d["trace_steps"] = info, steps
             gterms.append("up_replay %s" % groups_wire(groups))
             mterms.append("sl_trace %d %s" % (len(steps) + 5, wire(d["prog"])))
-        gv = yvlib.coq_eval(["YV:ScopeRun"], gterms, shard_size=40, tag="C06" + tag + "rp")
-        mv = yvlib.coq_eval(["YV:ScopeRun"], mterms, shard_size=40, tag="C06" + tag + "mt")
+        gv = yvlib.coq_eval(["YV:ScopeRun"], gterms, shard_size=max(8, (len(gterms) + 7) // 8), tag="C06" + tag + "rp")
+        mv = yvlib.coq_eval(["YV:ScopeRun"], mterms, shard_size=max(4, (len(mterms) + 15) // 16), tag="C06" + tag + "mt")
         for d, g, m in zip(tlive, gv, mv):
             d["replay"] = g
             d["mtrace_cmp"] = model_trace_cmp(d["trace_steps"], m, d.get("mapping", {})) if not d.get("code_mismatch") else "skipped"
@@ -1063,7 +1078,10 @@ def run(ctx):
         p, t = g.program()
         progs.append(p)
         tags.append(t)
+    import time
+    t0 = time.time()
     res = evaluate(ctx, progs, "gen", trace_n=ntrace)
+    log("[C06] generated programs evaluated in %.1fs" % (time.time() - t0))
     tagcount = {}
     for d, t in zip(res, tags):
         if d is None:
@@ -1079,7 +1097,9 @@ def run(ctx):
         for k, q in wrap_variants(p, max_name(p) + 1).items():
             mprogs.append(q)
             mkeys.append((k, p))
+    t0 = time.time()
     mres = evaluate(ctx, mprogs, "meta", trace_n=ntrace // 3)
+    log("[C06] metamorphic variants evaluated in %.1fs" % (time.time() - t0))
     base_out = {id(p): d for p, d in zip(progs, res)}
     nmeta_ok = 0
     for (k, p), d in zip(mkeys, mres):
@@ -1093,7 +1113,9 @@ def run(ctx):
             ctx.broken.append("eval_cells is not invariant under wrapping the top level in a %s: %s" % (k, b["src"][:300]))
         else:
             nmeta_ok += 1
+    t0 = time.time()
     nscripts = script_traces(ctx, stats)
+    log("[C06] repository scripts traced in %.1fs" % (time.time() - t0))
     # shrink the first new violation
     fresh = [v for v in ctx.violations if not v.get("known_class") and v.get("prog")]
     if fresh:
